@@ -310,6 +310,24 @@ func runC03(r *core.Run) {
 		s.Transitions.Store(s.Evals.Load())
 		s.Done()
 	}
+	{
+		// the Typographer with each substitution switched off (nil), emptied or replaced: what it leaves in place of the
+		// punctuation must be as inert as ordinary text
+		toks := []string{"a", " ", "'", "\"", "-", "--", "...", ".", "<<", ">>", "<", ">", "&", "\n", "<b x=y>"}
+		tn := core.Pick(r, 4, 5)
+		for _, v := range core.TypographerVariants() {
+			cfg := core.MustCfg("x:" + v)
+			wordsSub(r, "typographer-substitutions/"+v, "the Typographer built with WithTypographicSubstitutions where one punctuation (or all) maps to nil / an empty value / a custom reference: same oracle; distinct = output digest",
+				toks, tn, func(s *core.Sub, w int) func([]byte) uint64 {
+					cv := core.NewConv(cfg)
+					return func(word []byte) uint64 {
+						out := c03Case(s, cv, word, "typographer-substitutions")
+						s.Evals.Add(1)
+						return core.Hash(out)
+					}
+				})
+		}
+	}
 	// long payloads of every length in every sink (buffers, chunked escaping, multi-byte sequences at chunk borders)
 	lengthSub(r, "lengths/all+attr+autoid+xhtml", core.MustCfg("all+attr+autoid+xhtml"), core.Pick(r, 600, 2200), func(s *core.Sub, cv *core.Conv, w []byte) { c03Case(s, cv, w, "lengths") })
 	// every byte value in every sink
